@@ -117,10 +117,26 @@ def gen_history(rng, header, nops, malformed=0.2, stats=None):
         if nt is not None: return ("adv", min(d, nt - nowt))
         return ("adv", d)
 
+    script = []          # ops queued by a profile (taken before anything else)
+    lazy_dest = family == "fleet" and rng.random() < 0.3; seen_batch = False
     for _ in range(nops):
         r = rng.random()
         op = None
-        if belt and rng.random() < extra_ev:
+        if script:
+            op = script.pop(0)
+            if op == "CG-LAST":      # cancel the retrieval that was just granted (if it was)
+                op = ("cg", toks[-1].tid) if toks and toks[-1].side == "get" and toks[-1].state == "granted" else None
+            elif op == "GET-LAST":   # … and take what the next retrieval is bound to
+                op = ("get", toks[-1].actor, toks[-1].tid) if toks and toks[-1].side == "get" and toks[-1].state == "granted" else None
+            elif op == "CG-GRANTED":  # withdraw the oldest granted retrieval
+                g = [t for t in toks if t.side == "get" and t.state == "granted"]
+                op = ("cg", g[0].tid) if g else None
+            elif op == "GET-GRANTED":  # use the youngest granted retrieval
+                g = [t for t in toks if t.side == "get" and t.state == "granted"]
+                op = ("get", g[-1].actor, g[-1].tid) if g else None
+        if op is not None:
+            pass
+        elif belt and rng.random() < extra_ev:
             op = kernel_move()
         elif r < malformed:
             m = rng.randrange(9)
@@ -191,6 +207,9 @@ def gen_history(rng, header, nops, malformed=0.2, stats=None):
                 op = ("stat",)
         if op is None:
             op = ("settle",) if family not in ("fleet", "slot", "cbelt") else ("ev",)
+        # fleet profile "nobody waiting at the destination": no retrieval is requested before the first batch of two or more items has
+        # arrived, so that the batch lies there unreserved (the released item of a withdrawn retrieval then has never-reserved items behind it)
+        if lazy_dest and not seen_batch and op[0] == "rg": op = kernel_move()
         line = impl.do(op)
         ops.append(op); lines.append(line)
         if family == "cbelt" and op[0] == "put" and rng.random() < 0.6:
@@ -200,6 +219,12 @@ def gen_history(rng, header, nops, malformed=0.2, stats=None):
             while impl.urgent_pending() and n < 50:
                 ops.append(("ev",)); lines.append(impl.do(("ev",))); n += 1
                 if stats is not None: stats["ops"]["ev"] = stats["ops"].get("ev", 0) + 1
+        # a batch of two or more items has just become retrievable (fleet trip, several buffer timers at one instant): half of the time a
+        # retrieval is granted and withdrawn at once, so that the released item goes back in front of never-reserved ones
+        if family in ("fleet", "buf", "bufedge") and not script and line.count("|") >= 2 and len(line.split("|")[2].split()) >= 2 and rng.random() < 0.8:
+            a_ = rng.randrange(nact); seen_batch = True
+            script = ([("rg", a_, 0, "always"), "CG-LAST", ("rg", a_, 0, "always"), "GET-LAST"] if rng.random() < 0.5 else
+                      ["CG-GRANTED", ("rg", a_, 0, "always"), "GET-GRANTED", "GET-GRANTED"])
         # track token states from the implementation's answers
         if line.startswith("tok "):
             tid = int(line.split()[1])
